@@ -23,6 +23,7 @@ def run(ck):
     sampling.r16_skip_only_on_zero_mask_word(ck, P)
     floatmask.r11b_blend_degrees_8bit(ck, P)
     status.r_same_storage_needs_same_stride(ck, P, 'C01-R13')   # the pixbuf fast paths replace the general source-in-mask pipeline
+    status.r_same_storage_needs_same_offsets(ck, P, 'C01-R16')
     sampling.r17_cursor_step_follows_pipeline(ck, P, 'C01-R14')
     algebra.r9_operator_table(ck, P, 'C01-R15')      # the operator actually combined is the one operator_table substitutes
     tables.r1b_iter_entries(ck, P)            # C02-R1i: iterators that bypass the general fetchers pin what those would have honoured (alpha map)
